@@ -34,7 +34,7 @@ func pickU32(r *Run, key string, near uint32) uint32 {
 	case 2:
 		return near
 	case 3:
-		return near + 1 + uint32(r.Intn(key, 5))
+		return uint32(1 + r.Intn(key, 6))
 	case 4:
 		return near + 1000 + uint32(r.Intn(key, 100000))
 	case 5:
@@ -136,6 +136,7 @@ func scByzFrames(r *Run) {
 	// honest accept loop: every offered tube is read until it ends
 	bgAccepted := make(chan tubes.Tube, 1)
 	first := true
+	accN := 0
 	r.Go(func() {
 		for {
 			t, err := honest.Accept()
@@ -156,6 +157,14 @@ func scByzFrames(r *Run) {
 					}
 				}
 			})
+			// like a server that does not know the tube type, the honest side closes some of them
+			// (its FIN is then queued: acknowledgement numbers around it are another Byzantine input)
+			if accN++; accN%2 == 0 {
+				r.Go(func() {
+					time.Sleep(time.Duration(20+int(accN)*7%200) * time.Millisecond)
+					WithTimeout(r, 30*time.Second, func() { t.Close() })
+				})
+			}
 		}
 	})
 	r.Go(func() {
